@@ -305,6 +305,7 @@ def run_random(shard, acc):
             base = A.std(s, top=data.draw(st.booleans()), infix_identity=infix, ws=data.draw(st.sampled_from([' ', '', '  '])))
             variants.append(('prefix-identity' if not infix else 'infix-identity', base))
         variants.append(('extra-whitespace', with_ws(data.draw, A.std(s, top=False, infix_identity=data.draw(st.booleans())))))
+        variants.append(('infix-predicates', A.std(s, top=data.draw(st.booleans()), infix_identity=data.draw(st.booleans()), infix_preds=True)))
         res = check_roundtrip(s, variants)
         case = dict(kind='sentence', sentence=A.to_json(s), variants=variants)
         acc.case(('s', s), nontrivial=nontrivial(s), classes=('sentence', f'depth={A.depth(s)}'),
